@@ -1584,6 +1584,8 @@ def set_dictionary(tokens, baseline=(), cap=48):
     def new(lst, items):
         seen = set(x for x in lst if isinstance(x, str))
         for it in items:
+            if isinstance(it, str) and not _pct_ok(it):
+                continue        # a truncated escape: the lists hold valid component texts
             if it not in seen:
                 lst.append(it)
                 seen.add(it)
